@@ -232,6 +232,17 @@ def _eval(expr, g=None, l=None):
     return builtins.eval(expr, g, l)
 
 
+def _isinstance(o, t):
+    """the module's name ``int`` is bound to the _int stub; a symbolic integer is an int"""
+    ts = t if builtins.isinstance(t, tuple) else (t,)
+    ts = tuple(builtins.int if x is _int else x for x in ts)
+    if builtins.isinstance(o, SymInt) and builtins.int in ts:
+        return True
+    if builtins.isinstance(o, SymBool) and (builtins.bool in ts or builtins.int in ts):
+        return True
+    return builtins.isinstance(o, ts)
+
+
 class _NullLog:
     def info(self, *a, **k):
         pass
@@ -257,6 +268,7 @@ def install(mod, vfs=None):
     mod.len = sym_len
     mod.int = _int
     mod.eval = _eval
+    mod.isinstance = _isinstance
     mod.log_conversion = _noop
     mod.log_constant = _noop
     mod.log = _NullLog()
